@@ -18,6 +18,9 @@ pub struct Case {
     pub strat: u8,
     /// Some(l): call set_compression_level_raw(l) before the first compress call
     pub relevel: Option<u8>,
+    /// which setter carries `relevel`: 0 = set_compression_level_raw(l), 1 = set_format_and_level(Zlib, l)
+    /// (may be refused: the declared window then stays), 2 = set_format_and_level(ZLibIgnoreChecksum, l)
+    pub setter: u8,
     pub r: usize,
     pub filler: u8,
     pub d: usize,
@@ -64,7 +67,15 @@ pub fn check(c: &Case) -> Result<(usize, usize), (String, String)> {
         comp.reset();
     }
     if let (Some(l), false) = (c.relevel, c.relevel_mid) {
-        comp.set_compression_level_raw(l);
+        match c.setter {
+            0 => comp.set_compression_level_raw(l),
+            1 => {
+                let _ = comp.set_format_and_level(DataFormat::Zlib, l);
+            }
+            _ => {
+                let _ = comp.set_format_and_level(DataFormat::ZLibIgnoreChecksum, l);
+            }
+        }
     }
     let mut out = vec![0u8; input.len() + input.len() / 4 + 512];
     let mut op = 0;
@@ -131,7 +142,7 @@ pub fn check(c: &Case) -> Result<(usize, usize), (String, String)> {
 }
 
 fn to_json(c: &Case) -> Value {
-    json!({"wbits": c.wbits, "level": c.level, "strat": c.strat, "relevel": c.relevel, "r": c.r, "filler": c.filler, "d": c.d, "sync_cut": c.sync_cut, "base": c.base, "relevel_mid": c.relevel_mid, "pre_reset": c.pre_reset, "cut_none": c.cut_none})
+    json!({"wbits": c.wbits, "level": c.level, "strat": c.strat, "relevel": c.relevel, "setter": c.setter, "r": c.r, "filler": c.filler, "d": c.d, "sync_cut": c.sync_cut, "base": c.base, "relevel_mid": c.relevel_mid, "pre_reset": c.pre_reset, "cut_none": c.cut_none})
 }
 
 pub fn run(tier: &str) -> i32 {
@@ -163,7 +174,20 @@ pub fn run(tier: &str) -> i32 {
                                 if !th && !near && (d + level as usize + r) % 3 != 0 {
                                     continue;
                                 }
-                                cases.push(Case { wbits: w, level, strat, relevel, r, filler, d, sync_cut: None, base: 0, relevel_mid: false, pre_reset: false, cut_none: false });
+                                cases.push(Case { wbits: w, level, strat, relevel, setter: 0, r, filler, d, sync_cut: None, base: 0, relevel_mid: false, pre_reset: false, cut_none: false });
+                                // the format-and-level setter before the first call: same format (refused when the level
+                                // needs a wider window than declared) and the checksum-ignoring zlib format
+                                if relevel.is_some() {
+                                    for setter in 1..=2u8 {
+                                        cases.push(Case { wbits: w, level, strat, relevel, setter, r, filler, d, sync_cut: None, base: 0, relevel_mid: false, pre_reset: false, cut_none: false });
+                                    }
+                                } else if near && filler == 0 && r != 40 {
+                                    for setter in 1..=2u8 {
+                                        for l in [1u8, 6, 9] {
+                                            cases.push(Case { wbits: w, level, strat, relevel: Some(l), setter, r, filler, d, sync_cut: None, base: 0, relevel_mid: false, pre_reset: false, cut_none: false });
+                                        }
+                                    }
+                                }
                                 // a level setter called with input pending and no block emitted yet (first part fed
                                 // with flush None), naming the level the compressor already runs at (its own level, or
                                 // 1 where the window setting caps it to 1): changing the level there is documented as
@@ -171,11 +195,11 @@ pub fn run(tier: &str) -> i32 {
                                 // reset the strategy, so with any other strategy even the same level is a change)
                                 if relevel.is_none() && filler == 0 && level >= 1 && strat == 0 && (near || d >= 4096) && r != 40 {
                                     let same = if (12..15).contains(&w) { 1 } else { level };
-                                    cases.push(Case { wbits: w, level, strat, relevel: Some(same), r, filler, d, sync_cut: Some(d + r), base: 0, relevel_mid: true, pre_reset: false, cut_none: true });
+                                    cases.push(Case { wbits: w, level, strat, relevel: Some(same), setter: 0, r, filler, d, sync_cut: Some(d + r), base: 0, relevel_mid: true, pre_reset: false, cut_none: true });
                                 }
                                 // the same on an object that was used and reset() before
                                 if relevel.is_none() && (near || d == 32768) && r != 40 {
-                                    cases.push(Case { wbits: w, level, strat, relevel, r, filler, d, sync_cut: None, base: 0, relevel_mid: false, pre_reset: true, cut_none: false });
+                                    cases.push(Case { wbits: w, level, strat, relevel, setter: 0, r, filler, d, sync_cut: None, base: 0, relevel_mid: false, pre_reset: true, cut_none: false });
                                 }
                                 // level changes after the first (Sync-flushed) part of the stream
                                 if relevel.is_none() && filler == 0 && (near || d >= 4096) {
@@ -183,13 +207,13 @@ pub fn run(tier: &str) -> i32 {
                                         if !th && (l as usize + level as usize + strat as usize) % 3 != 0 {
                                             continue;
                                         }
-                                        cases.push(Case { wbits: w, level, strat, relevel: Some(l), r, filler, d, sync_cut: Some(d - 1), base: 0, relevel_mid: true, pre_reset: false, cut_none: false });
+                                        cases.push(Case { wbits: w, level, strat, relevel: Some(l), setter: 0, r, filler, d, sync_cut: Some(d - 1), base: 0, relevel_mid: true, pre_reset: false, cut_none: false });
 
                                     }
                                 }
                                 if near || th {
                                     for back in 0..=3usize {
-                                        cases.push(Case { wbits: w, level, strat, relevel, r, filler, d, sync_cut: Some(d - back), base: 0, relevel_mid: false, pre_reset: false, cut_none: false });
+                                        cases.push(Case { wbits: w, level, strat, relevel, setter: 0, r, filler, d, sync_cut: Some(d - back), base: 0, relevel_mid: false, pre_reset: false, cut_none: false });
                                     }
                                 }
                                 // the same repeat at absolute stream offsets around the 32 KiB dictionary
@@ -201,7 +225,7 @@ pub fn run(tier: &str) -> i32 {
                                             continue;
                                         }
                                         if at > d {
-                                            cases.push(Case { wbits: w, level, strat, relevel, r, filler, d, sync_cut: None, base: at - d, relevel_mid: false, pre_reset: false, cut_none: false });
+                                            cases.push(Case { wbits: w, level, strat, relevel, setter: 0, r, filler, d, sync_cut: None, base: at - d, relevel_mid: false, pre_reset: false, cut_none: false });
                                         }
                                     }
                                 }
@@ -226,7 +250,7 @@ pub fn run(tier: &str) -> i32 {
             Ok(Err((site, what))) => rep.violation(
                 &format!("C11/{}", site),
                 format!("{} :: with_params(Zlib, level {}, {}, window_bits {}){} input fill({})+R({})+fill{}({})+R sync_cut={:?}", what, c.level, strat_name(STRATS[c.strat as usize]), c.wbits,
-                    c.relevel.map(|l| format!("+set_compression_level_raw({})", l)).unwrap_or_default(), c.base, c.r, c.filler, c.d - c.r, c.sync_cut),
+                    c.relevel.map(|l| match c.setter { 0 => format!("+set_compression_level_raw({})", l), 1 => format!("+set_format_and_level(Zlib, {})", l), _ => format!("+set_format_and_level(ZLibIgnoreChecksum, {})", l) }).unwrap_or_default(), c.base, c.r, c.filler, c.d - c.r, c.sync_cut),
                 to_json(c),
             ),
             Err(p) => rep.violation("C11/panic", format!("panic {}", p), to_json(c)),
@@ -257,6 +281,7 @@ pub fn replay(v: &Value) -> Option<String> {
         level: v["level"].as_u64()? as u8,
         strat: v["strat"].as_u64()? as u8,
         relevel: v["relevel"].as_u64().map(|x| x as u8),
+        setter: v["setter"].as_u64().unwrap_or(0) as u8,
         r: v["r"].as_u64()? as usize,
         filler: v["filler"].as_u64()? as u8,
         d: v["d"].as_u64()? as usize,
